@@ -1,3 +1,4 @@
+import os
 #!/venv/bin/python
 """py2jit: translate the numba kernels of pynapple into Jit.Lang terms (Coq).
 
@@ -22,7 +23,7 @@ import hashlib
 import sys
 from fractions import Fraction
 
-REPO = "/repo"
+REPO = os.environ.get("VERIF_REPO", "/repo")
 KERNELS = [
     ("pynapple/core/_jitted_functions.py", "jitrestrict"),
     ("pynapple/core/_jitted_functions.py", "jitrestrict_with_count"),
@@ -102,6 +103,7 @@ class Kernel:
         self.results = results          # already translated kernels: name -> Kernel (for calls)
         self.site = 0
         self.label = 0
+        self.labels = []
         self.tmp = 0
         self.kinds = {}
         self.params = []
@@ -124,9 +126,10 @@ class Kernel:
         self.site += 1
         return f"{s}%nat"
 
-    def new_label(self):
+    def new_label(self, what="?", node=None):
         s = self.label
         self.label += 1
+        self.labels.append(f"{s}={what}@{getattr(node, 'lineno', '?')}")
         return f"{s}%nat"
 
     def new_tmp(self, kind):
@@ -447,15 +450,16 @@ class Kernel:
         if isinstance(s, ast.AugAssign):
             return self.augassign(s)
         if isinstance(s, ast.If):
+            lab = self.new_label("if", s)
             c = self.expr(s.test)
             # kinds flow through both branches in program order
             a = self.block(s.body)
             b = self.block(s.orelse)
-            return [f"SIf ({c})\n ({self.seq(a)})\n ({self.seq(b)})"]
+            return [f"SIf {lab} ({c})\n ({self.seq(a)})\n ({self.seq(b)})"]
         if isinstance(s, ast.While):
             if s.orelse:
                 raise Unsupported("while/else", s)
-            lab = self.new_label()
+            lab = self.new_label("while", s)
             c = self.expr(s.test)
             b = self.block(s.body)
             return [f"SWhile {lab} ({c})\n ({self.seq(b)})"]
@@ -466,7 +470,7 @@ class Kernel:
             if not (isinstance(it, ast.Call) and isinstance(it.func, ast.Name) and it.func.id == "range"
                     and 1 <= len(it.args) <= 2 and not it.keywords):
                 raise Unsupported("for iterator (only range(n) / range(a, b))", s)
-            lab = self.new_label()
+            lab = self.new_label("for", s)
             if len(it.args) == 1:
                 lo, hi = "EInt (0)%Z", self.expr(it.args[0])
             else:
@@ -679,7 +683,7 @@ class Kernel:
                 raise Unsupported("call target", s)
         if name not in self.callees:
             self.callees.append(name)
-        return [f"SCall {self.new_label()} [{'; '.join(ts)}] {coq_str(name)} [{'; '.join(args)}]"]
+        return [f"SCall {self.new_label('call', s)} [{'; '.join(ts)}] {coq_str(name)} [{'; '.join(args)}]"]
 
     def ret(self, s):
         v = s.value
@@ -764,7 +768,7 @@ Local Open Scope string_scope.
 def render(kernels):
     out = [HEADER]
     for k in kernels:
-        out.append(f"(* {k.name}: {k.rel}:{k.line}  sha256(normalised ast) = {k.hash}  sites = {k.site} *)\n")
+        out.append(f"(* {k.name}: {k.rel}:{k.line}  sha256(normalised ast) = {k.hash}  sites = {k.site}\n   labels (statement@source line): {' '.join(k.labels)} *)\n")
         out.append(k.coq())
         out.append("\n")
     out.append("Definition all_kernels : list func :=\n  [" +
